@@ -750,6 +750,68 @@ def small_variant(anno, genome, tx_id: str, tx_pos: int, kind: str, size: int,
                'GENE_SYMBOL': gene_model.gene_name})
 
 
+def small_circ(anno, tx_id: str, rng: random.Random, lo: int = 45, hi: int = 170):
+    """a circRNA of a few consecutive exons whose total length is SHORT (lo..hi nt; a length that
+    is not a multiple of three is preferred): peptides then span the back-splice junction and
+    several passes around the circle.  Built like moPepGen.fake.fake_circ_rna_model_circ."""
+    _imports()
+    from moPepGen.circ import CircRNAModel
+    from moPepGen.SeqFeature import FeatureLocation, SeqFeature
+    tx_model = anno.transcripts[tx_id]
+    gene_id = tx_model.gene_id
+    chrom = tx_model.transcript.chrom
+    ex = tx_model.exon
+    cands = []
+    for i in range(len(ex)):
+        tot = 0
+        for j in range(i, len(ex)):
+            tot += len(ex[j].location)
+            if tot > hi:
+                break
+            if tot >= lo and (j - i + 1) < len(ex):
+                cands.append((i, j, tot))
+    if not cands:
+        return None
+    pref = [c for c in cands if c[2] % 3 != 0]
+    i, j, _tot = rng.choice(pref or cands)
+    fragments = []
+    for exon in ex[i:j + 1]:
+        start = anno.coordinate_genomic_to_gene(exon.location.start, gene_id)
+        end = anno.coordinate_genomic_to_gene(exon.location.end - 1, gene_id)
+        if tx_model.transcript.strand == -1:
+            start, end = end, start
+        end += 1
+        fragments.append(SeqFeature(chrom=tx_id, location=FeatureLocation(start=start, end=end),
+                                    attributes={}, type='exon'))
+    fragments.sort()
+    n_ex = len(ex)
+    # exon numbering as fake does: index in the (genomically sorted) exon list
+    idx = ['E%d' % x for x in range(i + 1, j + 2)]
+    _id = f'CIRC-{tx_id}-' + '-'.join(idx)
+    if tx_model.transcript.strand == 1:
+        start_genomic = anno.coordinate_gene_to_genomic(fragments[0].location.start, gene_id)
+    else:
+        start_genomic = anno.coordinate_gene_to_genomic(fragments[-1].location.end - 1, gene_id)
+    return CircRNAModel(transcript_id=tx_id, fragments=fragments, intron=[], _id=_id, gene_id=gene_id,
+                        gene_name=tx_model.transcript.gene_name,
+                        genomic_location=f'{chrom}:{start_genomic}')
+
+
+def circ_positions(anno, tx_id: str, circ, margin: int = 0) -> List[int]:
+    """transcript positions covered by the fragments of `circ` (exonic fragments only), `margin`
+    positions away from both ends of every fragment"""
+    gid = anno.transcripts[tx_id].transcript.gene_id
+    out = []
+    for frag in circ.fragments:
+        try:
+            a = anno.coordinate_gene_to_transcript(int(frag.location.start), gid, tx_id)
+            b = anno.coordinate_gene_to_transcript(int(frag.location.end) - 1, gid, tx_id) + 1
+        except Exception:   # noqa  intron fragment of a ciRNA
+            continue
+        out += list(range(min(a, b) + margin, max(a, b) - margin))
+    return out
+
+
 def nested_variants(anno, genome, tx_id: str, rec, rng: random.Random, n: int,
                     kinds=('SNV', 'SNV', 'INS', 'DEL')):
     """small records INSIDE the stretch an alternative-splicing Insertion / Substitution record
@@ -990,6 +1052,23 @@ def plant_sec(anno, genome, rng: random.Random, tx_id: str, near_start: bool = T
         feat = GTFSeqFeature(location=FeatureLocation(lo, hi + 1, strand=strand), type='selenocysteine',
                              id=tx_id, attributes=dict(tx_model.transcript.attributes), chrom=chrom)
         tx_model.selenocysteine.append(feat)
+        # sometimes a SECOND Sec a few codons further on (two Sec in one cleavage product)
+        if near_start and rng.random() < 0.35:
+            k2 = k + rng.randint(2, 5)
+            p3 = o0 + 3 * k2
+            if k2 < ncod - 2 and not any(abs(p3 - h) < 3 for h in have):
+                try:
+                    g3 = [anno.coordinate_transcript_to_genomic(p3 + j, tx_id) for j in range(3)]
+                    l3, h3 = min(g3), max(g3)
+                    if h3 - l3 == 2:
+                        nts = list(str(genome[chrom].seq))
+                        nts[l3:h3 + 1] = list('TGA' if strand == 1 else 'TCA')
+                        genome[chrom].seq = Seq(''.join(nts))
+                        tx_model.selenocysteine.append(GTFSeqFeature(
+                            location=FeatureLocation(l3, h3 + 1, strand=strand), type='selenocysteine',
+                            id=tx_id, attributes=dict(tx_model.transcript.attributes), chrom=chrom))
+                except Exception:   # noqa
+                    pass
         tx_model.selenocysteine.sort(key=lambda f: int(f.location.start))
         return True
     return False
